@@ -390,6 +390,7 @@ func init() {
 			c04Directed(c)
 			c04SystemAddressForms(c)
 			c04LookAlikes(c)
+			c04FlagFaults(c)
 			if mine(c, 1) {
 				c04MetaNode(c)
 			}
@@ -906,6 +907,57 @@ func c04LookAlikes(c *harness.Ctx) {
 			c.R.Eval(u.N.Seq())
 		}
 	}
+}
+
+// c04FlagFaults: the k-th dependency call of a flag operation (pause, un-pause, freeze, un-freeze)
+// fails. An operation that fails is an aborted attempt (rolled back, the shadow does not move);
+// one that reports success has taken effect - and then everything that moves the token is judged
+// against it. Six consecutive worlds per case, so that every environment variant (copy-per-load
+// accounts adapter among them) is met.
+func c04FlagFaults(c *harness.Ctx) {
+	ops := []string{FPause, FUnPause, FFreeze, FUnFreeze}
+	n := 0
+	for oi, op := range ops {
+		for k := 1; k <= 5; k++ {
+			if !mine(c, oi*5+k) {
+				continue
+			}
+			for rep := 0; rep < 6; rep++ {
+				s := NewScn(c.Rand("c04ff").Fork(uint64(oi*100+k*10+rep)), c.R, ScnOpts{Shards: 1, Enabled: []string{"C04"}})
+				u := s.U
+				// the state the operation starts from
+				switch op {
+				case FUnPause:
+					u.Pause(0, s.F1)
+				case FUnFreeze:
+					u.Freeze(s.A, s.F1)
+				}
+				u.N.AbortOnFault = true
+				u.W.Fault = &world.FaultPlan{FailAt: k, Injectable: injectable(u.W), Err: world.FaultErrors[(k+rep)%len(world.FaultErrors)]}
+				switch op {
+				case FPause:
+					u.Pause(0, s.F1)
+				case FUnPause:
+					u.UnPause(0, s.F1)
+				case FFreeze:
+					u.Freeze(s.A, s.F1)
+				case FUnFreeze:
+					u.UnFreeze(s.A, s.F1)
+				}
+				u.W.Fault = nil
+				u.N.AbortOnFault = false
+				u.N.Exec(s.Xfer("T", s.A, s.Same, "f"))
+				u.N.Exec(s.Xfer("M", s.A, s.Same, "f"))
+				u.N.Exec(gen.SelfCall(FLocalMint, s.A, gen.BigGas, s.F1, gen.Big(3)))
+				u.N.Exec(gen.SelfCall(FLocalBurn, s.A, gen.BigGas, s.F1, gen.Big(3)))
+				u.N.Exec(s.Xfer("T", s.Same, s.A, "f"))
+				drain(u.N)
+				n++
+				c.R.Eval(u.N.Seq())
+			}
+		}
+	}
+	c.R.CoverN("C04/flag-operations-under-faults", int64(n))
 }
 
 // c04MetaNode: the executing node reports the metachain as its own shard. Frozen stays frozen and
